@@ -116,6 +116,7 @@ class RunProbe:
         self.emit = sc.get('emit', {})
         self.chdir_to = None
         self.chdir_nodes: set = set()
+        self.helper_nodes = {int(n) for n in (sc.get('helpers') or [])}
         self.save_armed: Optional[int] = None     # node whose save window is open (S0/S1)
         self.embed_ctx = sc.get('embed_ctx', True)
         self.on_end = None
@@ -168,6 +169,12 @@ class RunProbe:
         self.rec.ev('readfail', task.ident, dep.ident, type(exc).__name__, who)
 
     def work(self, task):
+        if task.ident in self.helper_nodes:
+            # the task forks a helper process that outlives it (it inherits every descriptor of the task process)
+            e, _w = self._who()
+            if e is not None and e.kind == 'worker':
+                e.tags['descendants'] = True
+                self.rec.fired('task-forks-helper')
         if self.chdir_to is not None and task.ident in self.chdir_nodes:
             self.rec.fired('task-changes-cwd')
             os.chdir(self.chdir_to)
@@ -714,6 +721,7 @@ def _execute(sc: dict, ch: Choices, storage_dir: Optional[str], storage_obj=None
         simos = SimOS(sim, cpu_count=sc.get('cpu_count', 2), spawn_boot_steps=sc.get('boot_steps', 2),
                       kill_flush=bool(sc.get('terminate_flush', False)))
         simos.coarse_clock = bool(sc.get('coarse_clock'))
+        simos.linger = {int(k): v for k, v in (sc.get('linger') or {}).items()}
         rec = Rec(sim.events, sim.fault_counts)
         rec.sim = sim
     else:
@@ -935,6 +943,8 @@ def _execute(sc: dict, ch: Choices, storage_dir: Optional[str], storage_obj=None
                 del rec.events[:]
                 rec.ev('prelude-done', prelude.get('max_workers'))
                 rec.fired('prelude-run')
+        if sim is not None:
+            rec.ev('clock', round(sim.clock, 3))      # virtual time at which the observed run_tasks call begins
         if need_lines:
             linemon.start(handler)
         rec.in_run = True
